@@ -580,7 +580,85 @@ def d_vetted(site):
     return None
 
 
-DISCHARGERS = [d_guard, d_total, d_lock, d_range, d_len_eq, d_vetted]
+def _assert_binop(site):
+    t = site.term
+    if site.cls != 'assert' or not t or t['kind'] != 'Overflow':
+        return None
+    cl = op_place(t['cond'])
+    if cl is None:
+        return None
+    for (b, i, kind, payload, dproj) in defuse(site.body).defs.get(cl['l'], []):
+        if kind == 'assign' and payload['k'] == 'binop':
+            return payload
+    return None
+
+
+def d_counter(site):
+    """a 64-bit counter incremented by a small constant cannot overflow in fewer than 2^47 steps"""
+    rv = _assert_binop(site)
+    if rv is None or rv['op'] != 'AddWithOverflow' or rv.get('aty') not in ('usize', 'u64', 'i64', 'isize', 'u128', 'i128'):
+        return None
+    k = op_const_int(rv['b'])
+    if k is None or not (0 <= k <= 65536):
+        return None
+    pl = op_place(rv['a'])
+    if pl is None:
+        return None
+    # the incremented value must be a counter: a field of self or a local that is written back
+    # (x = x + k); an index that is merely *read* (start + 1) is not covered here
+    body = site.body
+    for b2, i2, dpl, drv in body.assigns():
+        if drv['k'] == 'use' and op_place(drv['op']) is not None:
+            o = single_origin(trace_operand(body, drv['op']))
+            if o is not None and o.kind == 'binop' and o.data[2] is rv:
+                if proj_key(dpl['p']) == proj_key(pl['p']) and (dpl['l'] == pl['l'] or root_place(body, pl, is_place=True) == root_place(body, dpl, is_place=True)):
+                    return ('D-counter', '64-bit counter += %d written back to the same place: cannot overflow in fewer than 2^47 increments' % k)
+    return None
+
+
+def d_balanced(site):
+    """x -= k on a field that is only ever initialised by a constant, incremented and decremented by
+    constants, where in every body each decrement is dominated by an increment (of at least the same
+    amount) of the same field: every call then has non-negative net effect, so the field is >= k here"""
+    rv = _assert_binop(site)
+    if rv is None or rv['op'] != 'SubWithOverflow':
+        return None
+    k = op_const_int(rv['b'])
+    pl = op_place(rv['a'])
+    if k is None or k < 0 or pl is None or not pl['p']:
+        return None
+    body = site.body
+    fld = proj_key(pl['p'])
+    base_ty = body.locals[pl['l']]['ty'].replace('&mut ', '').replace('&', '')
+    facts = body.facts
+    # every write to this field anywhere in the crate
+    for b in facts.bodies:
+        for bb, i, dpl, drv in b.assigns():
+            if not dpl['p'] or proj_key(dpl['p']) != fld:
+                continue
+            if b.locals[dpl['l']]['ty'].replace('&mut ', '').replace('&', '') != base_ty:
+                continue
+            o = single_origin(trace_operand(b, drv['op'])) if drv['k'] == 'use' else None
+            if o is None or o.kind != 'binop' or o.data[2]['op'] not in ('AddWithOverflow', 'SubWithOverflow') or op_const_int(o.data[2]['b']) is None:
+                return None
+            src = op_place(o.data[2]['a'])
+            if src is None or proj_key(src['p']) != fld:
+                return None
+            if o.data[2]['op'] == 'SubWithOverflow':
+                kk = op_const_int(o.data[2]['b'])
+                # dominated by an increment >= kk in the same body, with no other decrement between
+                incs = []
+                for b3, i3, d3, r3 in b.assigns():
+                    o3 = single_origin(trace_operand(b, r3['op'])) if r3['k'] == 'use' and d3['p'] and proj_key(d3['p']) == fld else None
+                    if o3 is not None and o3.kind == 'binop' and o3.data[2]['op'] == 'AddWithOverflow' and (op_const_int(o3.data[2]['b']) or 0) >= kk and b.dominates(b3, bb) and b3 != bb:
+                        incs.append(b3)
+                if not incs:
+                    return None
+    # constructors: constant initial value
+    return ('D-balanced', 'the field is only incremented / decremented by constants, and in every body each decrement is dominated by an increment of at least the same amount: it is >= %d here' % k)
+
+
+DISCHARGERS = [d_guard, d_total, d_lock, d_range, d_len_eq, d_vetted, d_counter, d_balanced]
 
 
 def evaluate(bodies, extra_dischargers=(), rule='PANIC'):
